@@ -9,6 +9,15 @@
 The only thing shared with the code under test is the `cryptography` AEAD primitives (a
 third-party dependency, not code under test).  `selftest()` runs the RFC 8613 Appendix C
 vectors C.1.1, C.4, C.7 and C.8 through this module.
+
+Group OSCORE (draft-ietf-core-oscore-groupcomm, the `g_*` functions at the end): key / Common IV /
+Signature Encryption Key derivation (section 2), pairwise keys (section 2.5.1), the extended
+external_aad (section 3.4), the countersignature (RFC 9338 Countersign_structure) and its keystream
+encryption (section 4.2).  Signature, ECDH and AES-CBC primitives come from `cryptography`; the
+Ed25519 -> X25519 key conversion is done here with plain integers.  There are no published test
+vectors for that draft; this part is validated by agreeing with the code under test on AEAD- and
+signature-verified messages (two independent constructions cannot agree by accident) and by
+`g_selftest()` (seal/open consistency, key conversion identity).
 """
 
 import hashlib
@@ -65,6 +74,8 @@ def cbor(x):
         return _head(3, len(b)) + b
     if isinstance(x, (list, tuple)):
         return _head(4, len(x)) + b"".join(cbor(i) for i in x)
+    if isinstance(x, dict):
+        return _head(5, len(x)) + b"".join(cbor(k) + cbor(v) for k, v in x.items())
     raise TypeError(type(x))
 
 
@@ -122,14 +133,16 @@ def aad(params, request_kid, request_piv):
 Opt = namedtuple("Opt", "piv kid_context kid trailing flag")
 
 
-def parse_option(v):
+def parse_option(v, group=False):
     """-> Opt, or raises RefError for what RFC 8613 section 6.1 makes undecodable: reserved flag
-    bits (the three most significant bits), n = 6 or 7, a field running past the end."""
+    bits (the three most significant bits), n = 6 or 7, a field running past the end.
+    group=True: the sixth least significant bit is the Group Flag of Group OSCORE (section 4.1 of
+    the draft) and only the two most significant bits are reserved; it is reported in Opt.flag."""
     v = bytes(v)
     if v == b"":
         return Opt(None, None, None, b"", 0)
     f = v[0]
-    if f & 0xE0:
+    if f & (0xC0 if group else 0xE0):
         raise RefError("reserved flag bits set")
     n, k, h = f & 7, (f >> 3) & 1, (f >> 4) & 1
     if n > 5:
@@ -263,4 +276,322 @@ def selftest():
         raise AssertionError("accepted malformed option " + bad)
     assert build_option(b"\x05", b"Dalek", b"\x25") == h("19050544616c656b25")
     assert build_option() == b""
+    return True
+
+
+# ==== Group OSCORE (draft-ietf-core-oscore-groupcomm) ============================================
+
+#: encryption algorithms usable as AEAD Algorithm / Group Encryption Algorithm; A128CBC (RFC 9459) only as the latter
+ENC_ALGS = dict(ALGS)
+ENC_ALGS["A128CBC"] = (-65531, 16, 0, 16)
+#: Signature Algorithm -> (COSE value, signature bytes, COSE key type, COSE curve)
+SIGN_ALGS = {"EdDSA": (-8, 64, 1, 6), "ES256": (-7, 64, 2, 1)}
+ECDH_SS_HKDF_256 = -27
+GROUP_FLAG = 0x20
+P25519 = 2**255 - 19
+P256_ORDER = 0xFFFFFFFF00000000FFFFFFFFFFFFFFFFBCE6FAADA7179E84F3B9CAC2FC632551
+
+#: alg_group_enc / alg_sign may be None (a pairwise-only group); gm_cred, group_id are byte strings
+GroupParams = namedtuple("GroupParams", "alg_aead alg_group_enc alg_sign hashname secret salt group_id gm_cred")
+
+
+def _val(table, name):
+    return None if name is None else table[name][0]
+
+
+def g_main_alg(gp):
+    """'alg_aead' of the key derivation info: the Group Encryption Algorithm if set, else the AEAD Algorithm."""
+    return gp.alg_group_enc if gp.alg_group_enc is not None else gp.alg_aead
+
+
+def g_kdf(gp, salt, ikm, ident, algvalue, typ, length):
+    return hkdf(gp.hashname, salt, ikm, cbor([ident, gp.group_id, algvalue, typ, length]), length)
+
+
+def g_sender_key(gp, ident):
+    v, klen, _t, _n = ENC_ALGS[g_main_alg(gp)]
+    return g_kdf(gp, gp.salt, gp.secret, ident, v, "Key", klen)
+
+
+def g_common_iv(gp):
+    v = ENC_ALGS[g_main_alg(gp)][0]
+    n = max(ENC_ALGS[a][3] for a in (gp.alg_aead, gp.alg_group_enc) if a is not None)
+    return g_kdf(gp, gp.salt, gp.secret, b"", v, "IV", n)
+
+
+def g_sekey(gp):
+    v, klen, _t, _n = ENC_ALGS[gp.alg_group_enc]
+    return g_kdf(gp, gp.salt, gp.secret, b"", v, "SEKey", klen)
+
+
+def g_nonce(gp, algname, piv_sender_id, piv):
+    """RFC 8613 section 5.2 with the nonce length of `algname`; of a longer Common IV the leftmost bytes are used."""
+    nlen = ENC_ALGS[algname][3]
+    if len(piv_sender_id) > nlen - 6 or not 1 <= len(piv) <= 5:
+        raise RefError("ID or Partial IV length not admissible for the algorithm")
+    padded = bytes([len(piv_sender_id)]) + piv_sender_id.rjust(nlen - 6, b"\0") + piv.rjust(5, b"\0")
+    civ = g_common_iv(gp)[:nlen]
+    return bytes(a ^ b for a, b in zip(padded, civ))
+
+
+def g_external_aad(gp, pairwise_value, request_kid, request_piv, oscore_option, sender_cred, class_i=b""):
+    algs = [_val(ENC_ALGS, gp.alg_aead), _val(ENC_ALGS, gp.alg_group_enc), _val(SIGN_ALGS, gp.alg_sign), pairwise_value]
+    return cbor([1, algs, request_kid, request_piv, class_i, gp.group_id, oscore_option, sender_cred, gp.gm_cred])
+
+
+def g_keystream(gp, piv_generator_id, piv, is_request, length):
+    return hkdf(gp.hashname, piv, g_sekey(gp), cbor([piv_generator_id, gp.group_id, bool(is_request), length]), length)
+
+
+def _cbc(key, iv):
+    from cryptography.hazmat.primitives.ciphers import Cipher, algorithms, modes
+
+    return Cipher(algorithms.AES(key), modes.CBC(iv))
+
+
+def g_encrypt(algname, key, nn, aad_, pt):
+    if algname == "A128CBC":  # RFC 9459: no authentication; RFC 5652 section 6.3 padding
+        pad = 16 - len(pt) % 16
+        e = _cbc(key, nn).encryptor()
+        return e.update(pt + bytes([pad]) * pad) + e.finalize()
+    return _aead(algname, key).encrypt(nn, pt, aad_)
+
+
+def g_decrypt(algname, key, nn, aad_, ct):
+    """-> plaintext or None"""
+    import cryptography.exceptions
+
+    if algname == "A128CBC":
+        if not ct or len(ct) % 16:
+            return None
+        d = _cbc(key, nn).decryptor()
+        pt = d.update(ct) + d.finalize()
+        pad = pt[-1]
+        if not 1 <= pad <= 16 or pt[-pad:] != bytes([pad]) * pad:
+            return None
+        return pt[:-pad]
+    try:
+        return _aead(algname, key).decrypt(nn, ct, aad_)
+    except cryptography.exceptions.InvalidTag:
+        return None
+
+
+# ---- keys and credentials: EdDSA keys are raw 32-byte strings, ES256 private keys integers, public keys (x, y) ----
+
+
+def g_public(alg_sign, private):
+    from cryptography.hazmat.primitives.asymmetric import ed25519, ec
+    from cryptography.hazmat.primitives import serialization as s
+
+    if alg_sign == "EdDSA":
+        return ed25519.Ed25519PrivateKey.from_private_bytes(private).public_key().public_bytes(encoding=s.Encoding.Raw, format=s.PublicFormat.Raw)
+    n = ec.derive_private_key(private, ec.SECP256R1()).public_key().public_numbers()
+    return (n.x, n.y)
+
+
+def g_ccs(alg_sign, public, subject=None):
+    """A CWT Claims Set (RFC 8392 / RFC 9528 kccs) with the public key as COSE_Key in cnf."""
+    value, _siglen, kty, crv = SIGN_ALGS[alg_sign]
+    if alg_sign == "EdDSA":
+        key = {1: kty, 3: value, -1: crv, -2: public}
+    else:
+        key = {1: kty, 3: value, -1: crv, -2: public[0].to_bytes(32, "big"), -3: public[1].to_bytes(32, "big")}
+    claims = {}
+    if subject is not None:
+        claims[2] = subject
+    claims[8] = {1: key}
+    return cbor(claims)
+
+
+def _p256_private(d):
+    from cryptography.hazmat.primitives.asymmetric import ec
+
+    return ec.derive_private_key(d, ec.SECP256R1())
+
+
+def _p256_public(xy):
+    from cryptography.hazmat.primitives.asymmetric import ec
+
+    return ec.EllipticCurvePublicNumbers(xy[0], xy[1], ec.SECP256R1()).public_key()
+
+
+def g_sign(alg_sign, private, tbs):
+    from cryptography.hazmat.primitives.asymmetric import ed25519, ec, utils
+    from cryptography.hazmat.primitives import hashes
+
+    if alg_sign == "EdDSA":
+        return ed25519.Ed25519PrivateKey.from_private_bytes(private).sign(tbs)
+    r, s_ = utils.decode_dss_signature(_p256_private(private).sign(tbs, ec.ECDSA(hashes.SHA256())))
+    return r.to_bytes(32, "big") + s_.to_bytes(32, "big")
+
+
+def g_verify(alg_sign, public, signature, tbs):
+    from cryptography.hazmat.primitives.asymmetric import ed25519, ec, utils
+    from cryptography.hazmat.primitives import hashes
+    import cryptography.exceptions
+
+    try:
+        if alg_sign == "EdDSA":
+            ed25519.Ed25519PublicKey.from_public_bytes(public).verify(signature, tbs)
+        else:
+            der = utils.encode_dss_signature(int.from_bytes(signature[:32], "big"), int.from_bytes(signature[32:], "big"))
+            _p256_public(public).verify(der, tbs, ec.ECDSA(hashes.SHA256()))
+    except (cryptography.exceptions.InvalidSignature, ValueError):
+        return False
+    return True
+
+
+def ed_private_to_x25519(private):
+    h = bytearray(hashlib.sha512(private).digest()[:32])
+    h[0] &= 248
+    h[31] &= 127
+    h[31] |= 64
+    return bytes(h)
+
+
+def ed_public_to_x25519(public):
+    """Birational map Edwards -> Montgomery, u = (1 + y) / (1 - y) (RFC 7748 section 4.1)."""
+    y = int.from_bytes(public, "little") & ((1 << 255) - 1)
+    u = (1 + y) * pow((1 - y) % P25519, P25519 - 2, P25519) % P25519
+    return u.to_bytes(32, "little")
+
+
+def g_shared_secret(alg_sign, own_private, peer_public):
+    """Static-static Diffie-Hellman secret of the pairwise mode (section 2.5.1): X25519 on the converted
+    keys for EdDSA/Ed25519 groups, ECDH on P-256 (x coordinate) for ES256 groups."""
+    from cryptography.hazmat.primitives.asymmetric import x25519, ec
+
+    if alg_sign == "EdDSA":
+        return x25519.X25519PrivateKey.from_private_bytes(ed_private_to_x25519(own_private)).exchange(x25519.X25519PublicKey.from_public_bytes(ed_public_to_x25519(peer_public)))
+    return _p256_private(own_private).exchange(ec.ECDH(), _p256_public(peer_public))
+
+
+def g_pairwise_key(gp, sender_id, sender_cred, recipient_cred, shared):
+    """Pairwise key with which `sender_id` protects for the recipient: HKDF(Sender Key, sender cred | recipient cred | secret)."""
+    v, klen, _t, _n = ENC_ALGS[gp.alg_aead]
+    return g_kdf(gp, g_sender_key(gp, sender_id), sender_cred + recipient_cred + shared, sender_id, v, "Key", klen)
+
+
+def _countersign_structure(eaad, ciphertext):
+    return cbor(["CounterSignature0", b"", b"", eaad, ciphertext])
+
+
+def g_open_group(gp, pairwise_value, is_request, sender_id, sender_cred, sender_public, piv_sender_id, piv, request_kid, request_piv, oscore_option, payload, class_i=b""):
+    """Group mode. -> (plaintext | None, reason)"""
+    siglen = SIGN_ALGS[gp.alg_sign][1]
+    if len(payload) < siglen + 1:
+        return None, "too short for a countersignature"
+    ct, encsig = payload[:-siglen], payload[-siglen:]
+    eaad = g_external_aad(gp, pairwise_value, request_kid, request_piv, oscore_option, sender_cred, class_i)
+    ks = g_keystream(gp, piv_sender_id, piv, is_request, siglen)
+    sig = bytes(a ^ b for a, b in zip(encsig, ks))
+    if not g_verify(gp.alg_sign, sender_public, sig, _countersign_structure(eaad, ct)):
+        return None, "countersignature does not verify"
+    pt = g_decrypt(gp.alg_group_enc, g_sender_key(gp, sender_id), g_nonce(gp, gp.alg_group_enc, piv_sender_id, piv), cbor(["Encrypt0", b"", eaad]), ct)
+    return pt, ("ok" if pt is not None else "ciphertext does not decrypt")
+
+
+def g_seal_group(gp, pairwise_value, is_request, sender_id, sender_cred, sender_private, piv_sender_id, piv, request_kid, request_piv, oscore_option, plaintext, class_i=b""):
+    siglen = SIGN_ALGS[gp.alg_sign][1]
+    eaad = g_external_aad(gp, pairwise_value, request_kid, request_piv, oscore_option, sender_cred, class_i)
+    ct = g_encrypt(gp.alg_group_enc, g_sender_key(gp, sender_id), g_nonce(gp, gp.alg_group_enc, piv_sender_id, piv), cbor(["Encrypt0", b"", eaad]), plaintext)
+    sig = g_sign(gp.alg_sign, sender_private, _countersign_structure(eaad, ct))
+    ks = g_keystream(gp, piv_sender_id, piv, is_request, siglen)
+    return ct + bytes(a ^ b for a, b in zip(sig, ks))
+
+
+def g_open_pairwise(gp, pairwise_value, sender_id, sender_cred, recipient_cred, shared, piv_sender_id, piv, request_kid, request_piv, oscore_option, payload, class_i=b""):
+    """Pairwise mode. -> (plaintext | None, reason)"""
+    eaad = g_external_aad(gp, pairwise_value, request_kid, request_piv, oscore_option, sender_cred, class_i)
+    key = g_pairwise_key(gp, sender_id, sender_cred, recipient_cred, shared)
+    pt = g_decrypt(gp.alg_aead, key, g_nonce(gp, gp.alg_aead, piv_sender_id, piv), cbor(["Encrypt0", b"", eaad]), payload)
+    return pt, ("ok" if pt is not None else "ciphertext does not decrypt")
+
+
+def g_seal_pairwise(gp, pairwise_value, sender_id, sender_cred, recipient_cred, shared, piv_sender_id, piv, request_kid, request_piv, oscore_option, plaintext, class_i=b""):
+    eaad = g_external_aad(gp, pairwise_value, request_kid, request_piv, oscore_option, sender_cred, class_i)
+    key = g_pairwise_key(gp, sender_id, sender_cred, recipient_cred, shared)
+    return g_encrypt(gp.alg_aead, key, g_nonce(gp, gp.alg_aead, piv_sender_id, piv), cbor(["Encrypt0", b"", eaad]), plaintext)
+
+
+# ---- deterministic requests (draft-amsuess-core-cachable-oscore; experimental in aiocoap) ---------------------
+
+
+def class_i_request_hash(request_hash):
+    """The Request-Hash option (548) as the serialised Class I option list of the external_aad."""
+    from harness import refcodec as rc
+
+    return rc.encode(rc.Msg(0, 0, 0, b"", ((548, request_hash),), b""))[4:]
+
+
+def g_det_key(gp, det_id, request_hash):
+    v, klen, _t, _n = ENC_ALGS[gp.alg_aead]
+    return g_kdf(gp, g_sender_key(gp, det_id), request_hash, det_id, v, "Key", klen)
+
+
+def g_det_request_hash(gp, eaad, plaintext, det_id):
+    return hashlib.sha256(g_sender_key(gp, det_id) + eaad + plaintext).digest()
+
+
+def g_open_deterministic(gp, pairwise_value, det_id, piv, oscore_option, request_hash, payload):
+    """A deterministic request: sender credential empty, key derived from the deterministic client's
+    Sender Key and the Request-Hash, which must be the hash of (that key | external_aad | plaintext)."""
+    eaad = g_external_aad(gp, pairwise_value, det_id, piv, oscore_option, b"")
+    pt = g_decrypt(gp.alg_aead, g_det_key(gp, det_id, request_hash), g_nonce(gp, gp.alg_aead, det_id, piv), cbor(["Encrypt0", b"", eaad]), payload)
+    if pt is None:
+        return None, "ciphertext does not decrypt"
+    if g_det_request_hash(gp, eaad, pt, det_id) != request_hash:
+        return None, "Request-Hash is not the hash of key | external_aad | plaintext"
+    return pt, "ok"
+
+
+def g_seal_deterministic(gp, pairwise_value, det_id, piv, oscore_option, plaintext):
+    eaad = g_external_aad(gp, pairwise_value, det_id, piv, oscore_option, b"")
+    h = g_det_request_hash(gp, eaad, plaintext, det_id)
+    return h, g_encrypt(gp.alg_aead, g_det_key(gp, det_id, h), g_nonce(gp, gp.alg_aead, det_id, piv), cbor(["Encrypt0", b"", eaad]), plaintext)
+
+
+def g_selftest(sign_algs=("EdDSA", "ES256")):
+    """Internal consistency of the group part (no published vectors exist): key conversion identity,
+    symmetric shared secrets, seal/open round trips and their sensitivity to each bound input."""
+    from cryptography.hazmat.primitives.asymmetric import x25519
+    from cryptography.hazmat.primitives import serialization as s
+
+    h = hashlib.sha256
+    for i in range(3):
+        priv = h(b"c11ref-ed-%d" % i).digest()
+        pub = g_public("EdDSA", priv)
+        xpub = x25519.X25519PrivateKey.from_private_bytes(ed_private_to_x25519(priv)).public_key().public_bytes(encoding=s.Encoding.Raw, format=s.PublicFormat.Raw)
+        assert ed_public_to_x25519(pub) == xpub, "Ed25519 -> X25519 conversion"
+    assert cbor({1: 1, -1: 6}) == bytes.fromhex("a201012006") and cbor([True, False, None, -27]) == bytes.fromhex("84f5f4f6381a")
+    assert parse_option(bytes.fromhex("39050147" + "01"), group=True) == Opt(b"\x05", b"G", b"\x01", b"", 0x39)
+    for alg_sign in sign_algs:
+        for genc in ("AES-CCM-16-64-128", "A128CBC", "A128GCM"):
+            gp = GroupParams("AES-CCM-16-64-128", genc, alg_sign, "sha256", b"\x01" * 16, b"salt", b"G", b"gm")
+            if alg_sign == "EdDSA":
+                pa, pb = h(b"a").digest(), h(b"b").digest()
+            else:
+                pa, pb = int.from_bytes(h(b"a").digest(), "big") % (P256_ORDER - 1) + 1, int.from_bytes(h(b"b").digest(), "big") % (P256_ORDER - 1) + 1
+            qa, qb = g_public(alg_sign, pa), g_public(alg_sign, pb)
+            ca, cb = g_ccs(alg_sign, qa), g_ccs(alg_sign, qb, subject="b")
+            sab, sba = g_shared_secret(alg_sign, pa, qb), g_shared_secret(alg_sign, pb, qa)
+            assert sab == sba and len(sab) == 32, "static-static secret not symmetric"
+            optv = bytes([0x39, 5, 1]) + b"G" + b"\x0a"
+            pt = b"\x01\xb3tv1"
+            sealed = g_seal_group(gp, ECDH_SS_HKDF_256, True, b"\x0a", ca, pa, b"\x0a", b"\x05", b"\x0a", b"\x05", optv, pt)
+            ok = lambda **kw: g_open_group(**dict(dict(gp=gp, pairwise_value=ECDH_SS_HKDF_256, is_request=True, sender_id=b"\x0a", sender_cred=ca, sender_public=qa, piv_sender_id=b"\x0a", piv=b"\x05", request_kid=b"\x0a", request_piv=b"\x05", oscore_option=optv, payload=sealed), **kw))[0]
+            assert ok() == pt
+            assert ok(sender_public=qb) is None and ok(request_piv=b"\x06") is None and ok(request_kid=b"\x0b") is None and ok(oscore_option=optv[:-1] + b"\x0b") is None
+            assert ok(is_request=False) is None and ok(sender_cred=cb) is None and ok(gp=gp._replace(gm_cred=b"other")) is None and ok(gp=gp._replace(group_id=b"H")) is None
+            assert ok(payload=sealed[:-1] + bytes([sealed[-1] ^ 1])) is None and ok(payload=bytes([sealed[0] ^ 1]) + sealed[1:]) is None
+            optp = bytes([0x19, 5, 1]) + b"G" + b"\x0a"
+            sealed = g_seal_pairwise(gp, ECDH_SS_HKDF_256, b"\x0a", ca, cb, sab, b"\x0a", b"\x05", b"\x0a", b"\x05", optp, pt)
+            okp = lambda **kw: g_open_pairwise(**dict(dict(gp=gp, pairwise_value=ECDH_SS_HKDF_256, sender_id=b"\x0a", sender_cred=ca, recipient_cred=cb, shared=sba, piv_sender_id=b"\x0a", piv=b"\x05", request_kid=b"\x0a", request_piv=b"\x05", oscore_option=optp, payload=sealed), **kw))[0]
+            assert okp() == pt
+            assert okp(shared=b"\0" * 32) is None and okp(recipient_cred=ca) is None and okp(request_piv=b"\x06") is None and okp(oscore_option=optv) is None and okp(sender_id=b"\x0b") is None
+            optd = bytes([0x19, 0, 1]) + b"G" + b"\xdd"
+            hh, sealed = g_seal_deterministic(gp, ECDH_SS_HKDF_256, b"\xdd", b"\0", optd, pt)
+            assert g_open_deterministic(gp, ECDH_SS_HKDF_256, b"\xdd", b"\0", optd, hh, sealed)[0] == pt
+            assert g_open_deterministic(gp, ECDH_SS_HKDF_256, b"\xdd", b"\0", optd, bytes([hh[0] ^ 1]) + hh[1:], sealed)[0] is None
+    assert class_i_request_hash(b"\x11" * 32) == bytes.fromhex("ed011713") + b"\x11" * 32
     return True
